@@ -5,17 +5,45 @@ under the CONVFMT in force, AwkText where the spelling is not pinned down --, ze
 ValidSig, the Funcs table with name-ordered indexes and an AWK function shadowing one entry (Dispatch,
 DispatchAgrees), OutcomeFull), spec/NativeMachine.tla (Parse -> Setup -> OtherCalls -> Call -> Convert ->
 Return/Abort), MC_Native (machine = OutcomeFull, never stuck, totality, round trip, zero-fill, variadic spread,
-DispatchRight, StringKindsAgree), Gen_Native ((signature, arguments, CONVFMT, shadowed name) cases with the predicted
+DispatchRight, StringKindsAgree; ShapeRule / RejectedNeverCalled for signatures built from parts -- parameter and
+result types outside the documented kinds, second results that merely implement error --; ExtTableRight for results
+at the extreme values of every numeric kind, with exact decimal digits), spec/NativeSession.tla + MC_NativeSession
+(histories of Execute calls on ONE Interpreter: the set-up verdict is a function of the Funcs value given to the call;
+the variant that allocates the table before checking is refuted by TLC), Gen_Native ((signature, arguments, CONVFMT, shadowed name) cases with the predicted
 outcome), Trace_Native (multi-function tables and multi-call programs recorded from the real interpreter, validated
 by TLC with the same operators).
 """
-import copy, json, os
+import copy, json, os, re
+from vlib import MachineryError
 
 
 def corrupt(case, rnd):
     """Make the predicted observation wrong in a compared place."""
     c = copy.deepcopy(case)
+    if c.get('fam') == 'session':
+        # one Execute call of the history: a rejected set-up predicted as a run, or a corrected run's prediction changed
+        j = rnd.randrange(len(c['runs']))
+        r = c['outcomes'][j]
+        if c['runs'][j] == 'bad':
+            r['outcome'] = {'o': 'not-called' if not c['called'] else 'other-error'}
+        else:
+            r['orsetup'] = False
+            sub = corrupt(dict(fam='native', outcome=r['outcome']), rnd)
+            r['outcome'] = sub['outcome']
+        return c
     o = c['outcome']
+    if o['o'] == 'ok' and o.get('num'):            # an extreme result: another sign, another magnitude, another digit
+        n = o['num']
+        pick = rnd.random()
+        if pick < 0.4:
+            n['neg'] = not n['neg']
+        elif pick < 0.7 or not (n['int'] and n['exact']):
+            n['e10'] += 1 if rnd.random() < 0.5 else -1
+        else:
+            d = n['digits']
+            i = rnd.randrange(len(d))
+            n['digits'] = d[:i] + str((int(d[i]) + 1) % 10 if i or d[i] != '9' else 8) + d[i + 1:]
+        return c
     if o['o'] in ('ok', 'abort'):
         pick = rnd.random()
         if pick < 0.2 and o.get('ran'):           # which Go functions ran
@@ -61,6 +89,9 @@ def corrupt(case, rnd):
 
 def corrupt_event(ev, rnd):
     e = copy.deepcopy(ev)
+    if e.get('o') == 'ok' and e.get('sig', {}).get('res') == 'ext':
+        e['xnum']['neg'] = not e['xnum']['neg']     # an extreme result: the printed text is not pinned down, the number is
+        return e
     if e.get('o') == 'ok':
         e['printed'] = e['printed'] + 'z'
         # only events whose printed text is specified can be corrupted this way: echo of a wild value to a numeric
@@ -71,13 +102,32 @@ def corrupt_event(ev, rnd):
     return None
 
 
+def expect_refuted(ctx, module, cfg, what, **kw):
+    """A TLC run that must END with one of the named invariants violated (the model's own demonstration)."""
+    r = ctx.tlc(module, cfg, allow_fail=True, **kw)
+    log = open(r['log']).read()
+    m = re.search(r'Invariant (\w+) is violated', log)
+    if r['rc'] == 124:
+        raise MachineryError(f'TLC timed out on {module}/{cfg}')
+    if not m or m.group(1) not in what:
+        raise MachineryError(f'{module}/{cfg}: expected TLC to refute {what}; it did not:\n{log[-2000:]}')
+    ctx.log(f'{module}/{cfg}: {m.group(1)} refuted by TLC, as expected')
+    ctx.cov.setdefault('model_refutations', []).append({'cfg': cfg, 'invariant': m.group(1)})
+
+
 def run(ctx):
     q = ctx.quick
     os.environ['_JAVA_OPTIONS'] = f'-XX:ParallelGCThreads={max(2, min(ctx.cores, 8))}'
     ctx.rule = ('a case is one (signature, argument list, CONVFMT setting, shadowed table entry) tuple exported by TLC from '
                 'Gen_Native with the predicted outcome: '
                 'every kind as single parameter, plain and variadic, with every argument list of 0-2 menu values; every '
-                'result kind and error mode; 12 invalid shapes and 7 keyword-like names; string / []byte parameters (one, '
+                'result kind and error mode; 12 invalid shapes and 7 keyword-like names; signatures built from parts (every '
+                'parameter kind incl. struct / map / chan / complex / func / []int / []string / pointer / interface / array, alone, '
+                'variadic, or beside a documented one; 1-3 results over every first result type x second result of type error / '
+                'named int, pointer or struct type implementing error / int / string) called with 0..n+1 arguments or not called; '
+                'results at the extreme values of every numeric kind (minimum, maximum, -1, 2^63, 2^63+-1, 2^53+1, +-MaxFloat, '
+                '+-smallest denormal); histories of 2-3 (thorough: 4) Execute calls on one Interpreter that begin with a '
+                'rejected set-up and go on with the same Funcs or the corrected function; string / []byte parameters (one, '
                 'or both receiving the same value) x every menu value x 3 CONVFMT settings; the Funcs table {aa, fn, mm, zz} '
                 'with an AWK function shadowing none / the first / a middle / the last name while the program calls the '
                 'other Go functions and fn; random signatures of 0-3 '
@@ -97,6 +147,21 @@ def run(ctx):
         'calls of the OTHER entries (which Go function ran, what it returned) and that a call of the shadowed name reaches '
         'the AWK function',
         'numbers are modelled in halves (TLC has no reals); strings are compared by equality only',
+        'extreme results: int and uint are 64 bits wide (the platform of the check); the specification gives the mathematical '
+        'value as decimal digits (digit-sequence arithmetic), the program prints the result with printf "%.0f %e" and the '
+        'NUMBER is judged: sign and decimal exponent always, every digit where a float64 holds the value exactly (powers of '
+        'two, values of at most 53 significant bits, MaxFloat32/64); how `print` spells such numbers is not judged',
+        'shapes: the documented rule is read strictly -- the second result must be the type error; a concrete type that '
+        'implements error (named int, pointer, struct) is "any other shape" and must be rejected at set-up; named types whose '
+        'underlying kind is documented (type myint int) and uintptr are not generated (the documentation is silent); '
+        'accepted shapes are called and must not panic',
+        'sessions: the program is parsed once with the Funcs of the first call; every Execute call whose Funcs holds an '
+        'invalid function must return a set-up error (no output, no function called, no panic) however many calls were '
+        'rejected before; a call with the CORRECTED function (same name, same number of parameters) after rejected ones must '
+        'behave like the first Execute of a fresh interpreter OR still be rejected (the documentation says Funcs must not '
+        'change between calls, so holding on to the first verdict is not judged wrong) -- running with a half-built table is '
+        'neither; calls given the same Funcs are given the same map; an invalid Funcs AFTER an accepted one is outside the '
+        'documented use and not generated',
         'rejections are compared as a class (parse error / set-up error), never by message; the aborting error is '
         'compared by identity (==) with the value the function returned',
         'a non-function value or nil in Funcs is outside the statement ("functions of any other shape") and not generated: '
@@ -109,8 +174,18 @@ def run(ctx):
     else:
         mc = ctx.cfg('MC_Native', constants=dict(MaxArgs=1 if q else 2))
         ctx.tlc('MC_Native', mc, timeout=1500, heap='8g')
+        # histories of Execute calls on one interpreter: the set-up verdict is a function of the Funcs given to the call;
+        # refuted for the variant that allocates the table before checking the signatures
+        ms = ctx.cfg('MC_NativeSession', constants=dict(MaxRuns=4 if q else 6))
+        ctx.tlc('MC_NativeSession', ms, timeout=900, workers=min(2, ctx.cores))
+        bad = ctx.cfg('MC_NativeSession', name='MC_NativeSession_slip', constants=dict(Slip='"alloc-before-check"', MaxRuns=3))
+        expect_refuted(ctx, 'MC_NativeSession', bad, ('EveryBadRunRejected', 'NeverRunsOnPartialTable', 'VerdictIsFunctionOfFuncs',
+                                                      'FixedRunLikeFresh'), timeout=900, workers=1)
     g = ctx.cfg('Gen_Native', name='Gen_Native_small', constants=dict(Family='"small"'))   # args + results + invalid + strform + dispatch
     ctx.tlc('Gen_Native', g, capture='cases.ndjson', timeout=1500, heap='8g')
+    if not q:   # every pair of parameter kinds, every result shape behind a valid / an invalid parameter, longer histories
+        g = ctx.cfg('Gen_Native', name='Gen_Native_extra', constants=dict(Family='"extra"'))
+        ctx.tlc('Gen_Native', g, capture='cases.ndjson', timeout=1500, heap='8g')
     g = ctx.cfg('Gen_Native', name='Gen_Native_wide', constants=dict(Family='"wide"'))
     ctx.tlc('Gen_Native', g, capture='cases.ndjson', simulate=(2500 if q else 40000), depth=20, workers=min(4, ctx.cores),
             timeout=1500)
@@ -120,8 +195,21 @@ def run(ctx):
     for label, key in (('gen-native-convfmt', '"cf":"%.6g"'), ('gen-native-shadow', '"shadow":"none"')):
         with open(ctx.path(f'cases_{label}.ndjson'), 'w') as f:
             for line in open(ctx.path('cases.ndjson')):
-                if key not in line and '"called":true' in line:
+                if key not in line and '"called":true' in line and '"fam":"native"' in line:
                     f.write(line)
+        ctx.selftest(ctx.path(f'cases_{label}.ndjson'), 'C17', corrupt, label)
+    # ... and on the families of the second extension: extreme results, shapes built from parts, sessions
+    for label, key, least in (('gen-native-extreme', '"res":"ext"', 100), ('gen-native-shapes', '"shape":"gen"', 1000),
+                              ('gen-native-session', '"fam":"session"', 300)):
+        n = 0
+        with open(ctx.path(f'cases_{label}.ndjson'), 'w') as f:
+            for line in open(ctx.path('cases.ndjson')):
+                if key in line and (label == 'gen-native-session' or '"fam":"native"' in line):
+                    f.write(line)
+                    n += 1
+        ctx.cov[label.replace('gen-native-', '') + '_cases'] = n
+        if n < least:
+            raise MachineryError(f'only {n} cases of the family {label} were exported')
         ctx.selftest(ctx.path(f'cases_{label}.ndjson'), 'C17', corrupt, label)
     ntr = 300 if q else 5000
     ctx.harness(['C17', 'record', '-seed', str(ctx.seed), '-n', str(ntr), '-out', ctx.path('trace.ndjson')])
@@ -134,6 +222,8 @@ def run(ctx):
             sig = 'C17/panic/recorded'
         elif ev.get('o') != exp.get('o'):
             sig = f"C17/outcome/spec-{exp.get('o')}-real-{ev.get('o')}/recorded"
+        elif ev['sig'].get('res') == 'ext' and ev.get('got') == ev['sig']['name']:
+            sig = f"C17/convert/result-extreme/{ev['sig'].get('rk')}/{ev['sig'].get('xv')}/recorded"
         elif ev.get('got') != ev['sig']['name']:
             sig = 'C17/dispatch/wrong-function/recorded' + ('-shadowed' if ev.get('shadow', 'none') != 'none' else '')
         else:
@@ -141,4 +231,4 @@ def run(ctx):
         case = dict(fam='native', sig=ev['sig'], args=ev['args'], called=True, shadow='none', cf=ev.get('cf', '%.6g'),
                     outcome=exp if exp.get('o') in ('ok', 'abort') else {'o': exp.get('o')})
         ctx.add_failure(sig, f'recorded call rejected by Trace_Native at event {r["line"]}', case=case, expected=exp,
-                        observed={k: ev.get(k) for k in ('o', 'got', 'recv', 'printed', 'own', 'panic', 'awk', 'shadow', 'cf')}, program=ev.get('src'))
+                        observed={k: ev.get(k) for k in ('o', 'got', 'recv', 'printed', 'own', 'panic', 'awk', 'shadow', 'cf', 'xnum')}, program=ev.get('src'))
